@@ -44,7 +44,8 @@ def gen(rng, tier, shape=None):
     fmt = rng.choice(["black", "black", "cat"])
     # an independent random literal for the lexer model
     lit = rand_literal(rng)
-    return {"kind": kind, "cps": cps, "nest": nest, "fmt": fmt, "lit": lit, "mode": rng.choice(["create", "create", "fix"])}
+    return {"kind": kind, "cps": cps, "nest": nest, "fmt": fmt, "lit": lit, "mode": rng.choice(["create", "create", "fix"]),
+            "prefix": rng.random() < 0.3}
 
 
 def rand_literal(rng):
@@ -77,9 +78,11 @@ def program(case):
     arg = ""
     if case.get("mode") == "fix":
         # an existing snapshot whose string leaves are replaced (ValueAdapter path, not the insert path)
-        o = 'b"old"' if case["kind"] == "bytes" else '"old"'
+        o = 'b"old"' if case["kind"] == "bytes" else ('"öld ✓"' if case.get("prefix") else '"old"')
         arg = {"top": o, "list": f"[1, {o}, 'x']", "dict": "{'k': %s, 2: [%s]}" % (o, o), "tuple1": f"({o},)"}[case["nest"]]
-    return (f"from inline_snapshot import snapshot\nS = {mk}\n\ndef test_a():\n    assert {wrap} == snapshot({arg})\n")
+    # non-ASCII text on the line of the snapshot, left of it (columns are counted in characters, not bytes)
+    pre = "x = 'é✓𝄞'; " if case.get("prefix") else ""
+    return (f"from inline_snapshot import snapshot\nS = {mk}\n\ndef test_a():\n    {pre}assert {wrap} == snapshot({arg})\n")
 
 
 def model_lines(case):
